@@ -680,6 +680,25 @@ func (s *session) apply(step tf.M) bool {
 	case "SetRoute":
 		s.setRoute(tf.Str(step, "m", "ok"))
 		W.Step(e, tf.M{"m": s.mode}, tf.M{"ok": true}, s.project())
+	case "SetMinDep":
+		// environment: governance changes params.min_deposit (real MsgUpdateParams); a denom with amount 0 is dropped
+		md := tf.Sub(step, "md")
+		p := k.GetParams(s.r.Ctx)
+		p.MinDeposit = sdk.NewCoins()
+		if n := tf.Int(md, "ua", 0); n > 0 {
+			p.MinDeposit = p.MinDeposit.Add(sdk.NewInt64Coin(denomA, int64(n)))
+		}
+		if n := tf.Int(md, "ub", 0); n > 0 {
+			p.MinDeposit = p.MinDeposit.Add(sdk.NewInt64Coin(denomB, int64(n)))
+		}
+		if p.MinDeposit.IsZero() {
+			return false
+		}
+		o := s.r.Deliver(&tunneltypes.MsgUpdateParams{Authority: k.GetAuthority(), Params: p})
+		if !o.OK() {
+			panic(fmt.Sprint("SetMinDep failed: ", o.Err, o.Panic))
+		}
+		W.Step(e, tf.M{"md": s.coinsM(p.MinDeposit)}, tf.M{"ok": true}, s.project())
 	case "Fund":
 		t, err := k.GetTunnel(s.r.Ctx, tid)
 		if err != nil {
@@ -877,6 +896,10 @@ func RandomScriptC17(rng *rand.Rand) tf.Script {
 			steps = append(steps, tf.M{"e": "Trigger", "t": t, "who": randWho(rng, t, 80)})
 		case x < 92:
 			steps = append(steps, tf.M{"e": "SetRoute", "m": []string{"ok", "noGroup", "noNonces"}[rng.Intn(3)]})
+		case x < 95:
+			// governance changes the minimum deposit: raised, lowered, one denom dropped
+			steps = append(steps, tf.M{"e": "SetMinDep", "md": []tf.M{{"ua": 1, "ub": 2}, {"ua": 0, "ub": 2}, {"ua": 2, "ub": 1},
+				{"ua": 1, "ub": 0}, {"ua": 3, "ub": 3}}[rng.Intn(5)]})
 		default:
 			steps = append(steps, tf.M{"e": "EndBlock", "dt": pick(rng, []int{1, 2})})
 		}
